@@ -8,11 +8,11 @@ from runtime.common import CG_SWITCHES
 
 def t3(rep, tier, seed):
     rng = random.Random(seed)
-    N, V, K = (4, 3, 3) if tier == "quick" else (5, 4, 4)
+    N, V, K = (4, 3, 3) if tier == "quick" else (5, 3, 3)
     ms = list(H.multisets(N, V))
     rnd = [[rng.randint(0, 30) for _ in range(rng.randint(4, 6))] for _ in range(6 if tier == "quick" else 60)]
     bound = f"all multisets n<={N} of 0..{V} x numbins 1..{K} + seeded random n<=6; deterministic counting clock, every cut-off of the limit test enumerated"
-    sws = CG_SWITCHES if tier == "thorough" else [(True, True, False, True), (False, False, False, False), (True, False, True, True), (False, True, True, False), (True, True, True, True), (False, False, False, True)]
+    sws = CG_SWITCHES[::2] if tier == "thorough" else [(True, True, False, True), (False, False, False, False), (True, False, True, True), (False, True, True, False), (True, True, True, True), (False, False, False, True)]
     for objname in ("difference", "min-max", "max-min"):
         dom = [{"values": v, "k": k, "obj": objname, "cg": list(sw)} for sw in sws for v in ms + rnd for k in range(1, K + 1)]
         from props._domains import large_value_variants
